@@ -190,7 +190,7 @@ def run(chk, orch):
                 bad = ["<exit %s %s>" % (r["exit"], r.get("failure_site"))]
             else:
                 for name, dg in g["sorted_digests"].items():
-                    if r["sorted_digests"].get(name) != dg:
+                    if name.endswith(PART_FILES) and r["sorted_digests"].get(name) != dg:
                         bad.append(name)
             if bad:
                 gs, go, gc = part[(k, 1)]
@@ -209,7 +209,7 @@ def replay(doc, orch):
         i2 = orch.submit(doc["run"]["hashseed"], doc["run"]["fn"], doc["run"]["args"])
         out = orch.run_all()
         g, r = out[i1][1]["res"], out[i2][1]["res"]
-        bad = [n for n, d in g["sorted_digests"].items() if r["sorted_digests"].get(n) != d]
+        bad = [n for n, d in g["sorted_digests"].items() if n.endswith(PART_FILES) and r["sorted_digests"].get(n) != d]
         if r["exit"] != 0:
             bad.append("exit %s" % r["exit"])
         return bool(bad), "differs as multisets: %s" % bad
